@@ -22,7 +22,7 @@ def sanitizer_env(flavor, leaks):
         "quarantine_size_mb=64", "detect_odr_violation=0",
     ])
     env["UBSAN_OPTIONS"] = "print_stacktrace=1:halt_on_error=1:exitcode=87"
-    env["LSAN_OPTIONS"] = "exitcode=0:print_suppressions=0:max_leaks=50"
+    env["LSAN_OPTIONS"] = "print_suppressions=0:max_leaks=50"
     env["MALLOC_PERTURB_"] = "165"  # non-ASan flavours: make stale reads visible as garbage
     return env
 
